@@ -269,4 +269,18 @@ theorem screen_of_sim (cap depth : Nat) (P : List Byte) (v : Vterm) (r : Ref) (s
     rw [if_neg h2] at hs
     exact hs
 
+/-! ### starting with `vterm_automate_init_step` (the prompt is printed before the first key) -/
+
+theorem initStep_sim (cap depth : Nat) (v : Vterm) (r : Ref) (h : VSim cap depth v r) (hs : v.state ≠ 2) :
+    VSim cap depth v.initStep.1 r ∧ v.initStep.1.state = 2 ∧ v.initStep.1.echo = v.echo ∧
+    v.initStep.1.prompt = v.prompt ∧ v.initStep.1.cxx = v.cxx ∧ v.initStep.2 = (if v.echo then v.prompt else []) := by
+  obtain ⟨hst, hsig, hsim, _, _⟩ := h
+  have e : v.initStep = v.prologue := by
+    unfold Vterm.initStep; rw [if_pos (by omega)]
+  rw [e]
+  rw [nrl_reset _ hs] at hsim
+  refine ⟨⟨Or.inr (Or.inr rfl), hsig, ?_, hsim.lineOK, ?_⟩, rfl, rfl, rfl, rfl, rfl⟩
+  · rw [nrl_two _ rfl]; exact hsim
+  · simp only [Vterm.prologue, Readline.newlineReset]; exact Nat.zero_le _
+
 end Igris.C15
